@@ -39,6 +39,7 @@ class V:
 
 TOPV = V(-(1 << 70), 1 << 70)
 PTR_L = "ptr-to-limbs"
+OBJ_U = "the-number"
 
 
 def const(c):
@@ -64,13 +65,15 @@ class Cell:
 class Exec:
     """abstract execution of one function on one cell"""
 
-    def __init__(self, fn, cell, uparam, vparam):
+    def __init__(self, fn, cell, uparam, vparam, unit=None, depth=0):
         self.fn, self.cell = fn, cell
         self.blocks = sa.blocks_by_id(fn)
-        self.uid = uparam["id"]
+        self.uid = uparam["id"] if uparam else None
         self.vid = vparam["id"] if vparam else None
         self.results = []          # (value, quality, line)
         self.steps = 0
+        self.unit = unit or {}     # functions of the same unit, by name: calls to them are executed in place
+        self.depth = depth
 
     # -- values
     def atom_n(self):
@@ -97,12 +100,14 @@ class Exec:
         if k == "int":
             return const(e["v"])
         if k == "var":
+            if e["id"] == self.uid and e["id"] not in env:
+                return OBJ_U
             return env.get(e["id"], TOPV)
         if k == "member":
             b = _strip(e.get("base"))
             while isinstance(b, dict) and b.get("k") in ("cast", "unop"):
                 b = _strip(b["e"])
-            if isinstance(b, dict) and b.get("k") == "var" and b["id"] == self.uid:
+            if isinstance(b, dict) and b.get("k") == "var" and (env.get(b["id"]) is OBJ_U or (b["id"] == self.uid and b["id"] not in env)):
                 if e["field"] == "_mp_size":
                     return self.atom_n()
                 if e["field"] == "_mp_exp" and self.cell.e is not None:
@@ -192,6 +197,22 @@ class Exec:
             return TOPV
         if k == "call" and e.get("callee") == "__builtin_expect" and e.get("args"):
             return self.eval(e["args"][0], env)
+        if k == "call" and e.get("callee") in self.unit and self.depth < 2:
+            # a helper of the same unit: executed in place on the same cell (its own branches may split; the results are merged)
+            g = self.unit[e["callee"]]
+            args = [self.eval(a, env) for a in e.get("args", [])]
+            if len(args) == len(g["params"]):
+                sub = Exec(g, self.cell, None, None, self.unit, self.depth + 1)
+                try:
+                    sub.walk(g["entry"], {p_["id"]: a for p_, a in zip(g["params"], args)}, "exact", set())
+                except LoopFound:
+                    return TOPV
+                vals = [r[0] for r in sub.results]
+                if vals and all(isinstance(x, V) for x in vals):
+                    if len(vals) == 1 and sub.results[0][1] == "exact":
+                        return vals[0]
+                    return V(min(x.lo for x in vals), max(x.hi for x in vals))
+            return TOPV
         return TOPV
 
     def boolval(self, b, q):
@@ -515,7 +536,7 @@ TARGETS = [
 ]
 
 
-def judge(fn, kind, args):
+def judge(fn, kind, args, unit=None):
     """-> (cells, proved, undecided, [refutations])"""
     ps = fn["params"]
     if not ps or ("__mpz_struct" not in ps[0].get("ct", "") and "__mpf_struct" not in ps[0].get("ct", "")):
@@ -526,7 +547,7 @@ def judge(fn, kind, args):
     bad = []
     for cell, want in cells:
         try:
-            res = Exec(fn, cell, ps[0], vparam).run()
+            res = Exec(fn, cell, ps[0], vparam, unit).run()
         except LoopFound:
             res = []                                  # loop-free predicates only: a rewritten function with a loop is undecided
         ok, wrong = True, None
@@ -565,8 +586,10 @@ def run(prop="C11", tier="quick"):
     ex = sa.export(cfg)
     sa.check_errors(ex)
     byname = {}
+    units = collections.defaultdict(dict)
     for path, fn in ex.functions():
         byname[(relpath(path) if path != FIXTURE else "FIXTURE", fn["name"])] = (path, fn)
+        units[path][fn["name"]] = fn
     # the unsigned predicates are defined in mpir.h and emitted by their units through __GMP_FORCE_...: export those units with headers
     import compdb
     hu = [u for u in compdb.c_units() if relpath(u.path) in ("mpz/fits_ushort.c", "mpz/fits_uint.c", "mpz/fits_ulong.c")]
@@ -581,22 +604,23 @@ def run(prop="C11", tier="quick"):
                              ("fix_order_bad_cmp_si", "cmp", dict(signed_v=True, absu=False)),
                              ("fix_order_good_fits", "fits", dict(lo_t=-(1 << 31), hi_t=(1 << 31) - 1)),
                              ("fix_order_bad_fits", "fits", dict(lo_t=-(1 << 31), hi_t=(1 << 31) - 1)),
+                             ("fix_order_good_helper", "cmp", dict(signed_v=False, absu=False)),
                              ("fix_order_good_switch", "fits", dict(lo_t=-(1 << 31), hi_t=(1 << 31) - 1)),
                              ("fix_order_bad_switch", "fits", dict(lo_t=-(1 << 31), hi_t=(1 << 31) - 1))):
         if ("FIXTURE", name) not in byname:
             raise AnalysisBroken("R-ORDER fixture %s missing" % name)
-        n, p, u, bad = judge(byname[("FIXTURE", name)][1], kind, args)
+        n, p, u, bad = judge(byname[("FIXTURE", name)][1], kind, args, units[FIXTURE])
         fx[name] = "refuted" if bad else ("proved" if p == n else "undecided")
     want = {"fix_order_good_cmp_ui": "proved", "fix_order_bad_cmp_ui": "refuted", "fix_order_bad_cmp_si": "refuted",
             "fix_order_good_fits": "proved", "fix_order_bad_fits": "refuted", "fix_order_good_switch": "proved",
-            "fix_order_bad_switch": "refuted"}
+            "fix_order_bad_switch": "refuted", "fix_order_good_helper": "proved"}
     if fx != want:
         raise AnalysisBroken("R-ORDER fixtures: got %r, want %r" % (fx, want))
     for rel, name, kind, args in TARGETS:
         if (rel, name) not in byname:
             raise AnalysisBroken("R-ORDER: anchor %s in %s not found" % (name, rel))
         path, fn = byname[(rel, name)]
-        n, p, u, bad = judge(fn, kind, args)
+        n, p, u, bad = judge(fn, kind, args, units.get(path))
         res["stats"]["cells"] += n
         res["stats"]["proved"] += p
         res["stats"]["undecided"] += u
@@ -616,6 +640,6 @@ def run(prop="C11", tier="quick"):
     res["stats"] = dict(st)
     res["obligations"] = st["cells"]
     res["undecided"] = st.get("undecided", 0)
-    res["notes"].append("fixtures: 3 correct predicates proved (one written as a switch), 4 broken ones refuted")
+    res["notes"].append("fixtures: 4 correct predicates proved (one written as a switch, one through a helper), 4 broken ones refuted")
     res["exhaustive"] = True
     return res
